@@ -254,6 +254,18 @@ fn ex_repeated_custom_twice(_w: &mut ZA, a: Qty, b: Qty, c: Cur, d: Cur) {
     rec("ex_repeated_custom_twice", format!("{a:?},{b:?},{:?},{:?}", c.0, d.0));
 }
 
+// more than ten parameters, multi-group ones at positions 1 and 10 (ids 1 and 10 share the prefix "__1")
+#[given(expr = "big {word} {string} {int} {int} {int} {int} {int} {int} {int} {int} {string} {word}")]
+#[allow(clippy::too_many_arguments)]
+fn ex_many(_w: &mut ZA, a: String, s1: String, i2: i32, i3: i32, i4: i32, i5: i32, i6: i32, i7: i32, i8: i32, i9: i32, s10: String, z: String) {
+    rec("ex_many", format!("{a:?},{s1:?},{i2},{i3},{i4},{i5},{i6},{i7},{i8},{i9},{s10:?},{z:?}"));
+}
+
+#[when(expr = "bigs {string} {string} {word} {word} {word} {word} {word} {word} {word} {word} {string} {word}")]
+fn ex_many_slice(_w: &mut ZA, xs: &[String]) {
+    rec("ex_many_slice", format!("{xs:?}"));
+}
+
 #[then(expr = "{int} and {int} and {word}")]
 fn ex_order(_w: &mut ZA, a: i32, b: i32, c: String) {
     rec("ex_order", format!("{a:?},{b:?},{c:?}"));
@@ -410,6 +422,24 @@ fn defs() -> Vec<Def> {
             let q = |s: &str| match s { "few" | "many" => Ok(format!("Vague({s:?})")), n => n.parse::<u32>().map(|n| format!("Exact({n})")).map_err(|_| String::from("can not be parsed")) };
             Ok(format!("{},{},{:?},{:?}", q(first_nonempty(&[&g[0], &g[1]]))?, q(first_nonempty(&[&g[2], &g[3]]))?, g[4], g[5]))
         } },
+        Def { world: 'A', kw: Given, id: "ex_many", how: Expr(
+            "big {word} {string} {int} {int} {int} {int} {int} {int} {int} {int} {string} {word}",
+            r#"^big ([^\s]+) (?:"([^"\\]*(?:\\.[^"\\]*)*)"|'([^'\\]*(?:\\.[^'\\]*)*)') ((?:-?\d+)|(?:\d+)) ((?:-?\d+)|(?:\d+)) ((?:-?\d+)|(?:\d+)) ((?:-?\d+)|(?:\d+)) ((?:-?\d+)|(?:\d+)) ((?:-?\d+)|(?:\d+)) ((?:-?\d+)|(?:\d+)) ((?:-?\d+)|(?:\d+)) (?:"([^"\\]*(?:\\.[^"\\]*)*)"|'([^'\\]*(?:\\.[^'\\]*)*)') ([^\s]+)$"#,
+        ), expect: |g, _| {
+            let ints: Result<Vec<i32>, _> = g[3..11].iter().map(|x| x.parse::<i32>()).collect();
+            let ints = ints.map_err(|_| String::from("can not be parsed"))?;
+            Ok(format!("{:?},{:?},{},{:?},{:?}", g[0], first_nonempty(&[&g[1], &g[2]]), ints.iter().map(i32::to_string).collect::<Vec<_>>().join(","), first_nonempty(&[&g[11], &g[12]]), g[13]))
+        } },
+        Def { world: 'A', kw: When, id: "ex_many_slice", how: Expr(
+            "bigs {string} {string} {word} {word} {word} {word} {word} {word} {word} {word} {string} {word}",
+            r#"^bigs (?:"([^"\\]*(?:\\.[^"\\]*)*)"|'([^'\\]*(?:\\.[^'\\]*)*)') (?:"([^"\\]*(?:\\.[^"\\]*)*)"|'([^'\\]*(?:\\.[^'\\]*)*)') ([^\s]+) ([^\s]+) ([^\s]+) ([^\s]+) ([^\s]+) ([^\s]+) ([^\s]+) ([^\s]+) (?:"([^"\\]*(?:\\.[^"\\]*)*)"|'([^'\\]*(?:\\.[^'\\]*)*)') ([^\s]+)$"#,
+        ), expect: |g, _| {
+            let mut v: Vec<String> = vec![first_nonempty(&[&g[0], &g[1]]).to_owned(), first_nonempty(&[&g[2], &g[3]]).to_owned()];
+            v.extend(g[4..12].iter().cloned());
+            v.push(first_nonempty(&[&g[12], &g[13]]).to_owned());
+            v.push(g[14].clone());
+            Ok(format!("{v:?}"))
+        } },
         Def { world: 'A', kw: When, id: "ex_custom_default_name", how: Expr("pay in {cur}", r"^pay in ([A-Z]{3})$"), expect: |g, _| Ok(format!("{:?}", g[0])) },
         Def { world: 'A', kw: Then, id: "ex_order", how: Expr("{int} and {int} and {word}", r"^((?:-?\d+)|(?:\d+)) and ((?:-?\d+)|(?:\d+)) and ([^\s]+)$"), expect: |g, _| match (g[0].parse::<i32>(), g[1].parse::<i32>()) { (Ok(a), Ok(b)) => Ok(format!("{a:?},{b:?},{:?}", g[2])), _ => Err("can not be parsed".into()) } },
         Def { world: 'A', kw: Then, id: "ex_slice", how: Expr("all of {word} {word} {word}", r"^all of ([^\s]+) ([^\s]+) ([^\s]+)$"), expect: |g, _| Ok(format!("{g:?}")) },
@@ -466,6 +496,8 @@ const CORPUS: &[&str] = &[
     "order 5 pcs now", "order few now", "order many now", "order some now", "order 5 now", "order 99999999999 pcs now",
     "swap USD for EUR at 5 pcs", "swap USD for EUR at few", "swap USD for EUR at GBP", "swap USD for 5 pcs at few", "swap usd for EUR at few",
     "5 pcs then many in USD or EUR", "few then 7 pcs in USD or many", "few then USD in USD or EUR",
+    "big go \"one\" 2 3 4 5 6 7 8 9 'ten' end", "big go 'one' 2 3 4 5 6 7 8 9 \"ten\" end", "big go \"one\" 2 3 4 5 6 7 8 x 'ten' end", "big go \"one\" 2 3 4 5 6 7 8 9 ten end",
+    "bigs 'p' \"q\" a b c d e f g h 'r' z", "bigs \"p\" \"q\" a b c d e f g h \"r\" z", "bigs 'p' q a b c d e f g h 'r' z",
     "pay in USD", "pay in usd", "pay in EURO", "1 and 2 and x", "-1 and 22 and yy", "1 and x and 2", "all of a b c", "all of a b",
     "foo is 5", "foo is -5", "foo is bar", "anything goes here", "anything ", "anything", "escaped {brace} and (paren)", "escaped brace and paren", "escaped \\{brace} and \\(paren)",
     // multi-group parameters followed by more arguments
